@@ -110,11 +110,7 @@ def fracLen (t : Token) : Nat := (t.fracDigits.getD []).length
 
 theorem mantissa_eq (t : Token) : t.mantissa = digitsVal (allDigits t) := rfl
 
-theorem exponent_eq (t : Token) : t.exponent = expVal t.exp - (fracLen t : Int) := by
-  unfold Token.exponent expVal fracLen
-  cases t.exp with
-  | none => rfl
-  | some p => rfl
+theorem exponent_eq (t : Token) : t.exponent = expVal t.exp - (fracLen t : Int) := rfl
 
 /-- the integer the model stores for an integer text that fits -/
 def intVal (neg : Bool) (m : Nat) : JNum :=
@@ -155,10 +151,6 @@ def Outcome (t : Token) (fin : Nat) (a : Acc) : Prop :=
   (t.isInteger = true ∧ t.mantissa < 2 ^ 64 ∧ a = .ret (.ok (intVal t.neg t.mantissa) fin .int)) ∨
   (t.isInteger = false ∧ t.mantissa = 0 ∧ a = .ret (.ok (.real (zeroBits t.neg)) fin .zero)) ∨
   (¬ (t.isInteger = true ∧ t.mantissa < 2 ^ 64) ∧ ∃ f, a = .float f ∧ Good t fin f)
-
-def fracBytes : Option (List Nat) → Nat
-  | none => 0
-  | some fs => 1 + fs.length
 
 
 theorem scanFrac_dot (r : List Nat) :
@@ -212,14 +204,811 @@ theorem zeroExp_outcome (neg : Bool) (ids : List Nat) (fr : Option (List Nat)) (
     rw [scanExp_e c r hE, zeroExp_eq]
     by_cases h0 : takeDigits (r.drop (expSign r).2) = []
     · rw [if_pos h0, if_pos h0]
-      exact ⟨fun _ => ⟨_, rfl⟩, fun ex h => nomatch h⟩
+      exact ⟨fun _ => ⟨_, rfl⟩, nofun⟩
     · rw [if_neg h0, if_neg h0]
-      refine ⟨fun h => nomatch h, fun ex h => ?_⟩
+      refine ⟨nofun, fun ex h => ?_⟩
       simp only [Option.some.injEq] at h
       subst h
       right; left
       refine ⟨by simp [Token.isInteger], hm, ?_⟩
-      simp only [expLen, hi]
-      congr 3; omega
+      simp only [expLen, hi, Nat.add_assoc]
+
+
+/-- The fraction block (`double_fract` …) against the grammar.  `ids ++ pre` are the mantissa digits before the
+    pointer (`pre`: fraction zeros already skipped), of which the first `PA` are in `m.man`. -/
+theorem fract_outcome (neg : Bool) (ids pre s : List Nat) (i : Nat) (m : Mant) (exp10S n PA fin0 : Nat)
+    (hnd : m.manNd = (n : Int)) (hn : n ≤ 19) (hmanlt : m.man < 10 ^ n)
+    (hA : ∀ c ∈ ids ++ pre, isD c = true)
+    (hPA : PA ≤ (ids ++ pre).length)
+    (hm : m.man = digitsVal ((ids ++ pre).take PA))
+    (hfull : n < 17 → PA = (ids ++ pre).length)
+    (hme : m.exp10 = (((ids ++ pre).length - PA : Nat) : Int))
+    (hmt : m.trunc = decide (PA < (ids ++ pre).length))
+    (hi : i = exp10S + pre.length)
+    (hfin : fin0 = i + (takeDigits s).length)
+    (hbig : (m.trunc || decide (min (takeDigits s).length (17 - n) < (takeDigits s).length)) = true →
+              10 ^ 16 ≤ accDigits m.man ((takeDigits s).take (min (takeDigits s).length (17 - n)))) :
+    (scanExp (s.dropWhile isD) = none → ∃ p, doubleFract neg s i m exp10S = .ret (.err errInvalidChar p)) ∧
+    (∀ ex, scanExp (s.dropWhile isD) = some ex →
+       Outcome { neg := neg, intDigits := ids, fracDigits := some (pre ++ takeDigits s), exp := ex }
+         (fin0 + expLen ex) (doubleFract neg s i m exp10S)) := by
+  rw [doubleFract_eq neg s i m exp10S n hnd hn hmanlt]
+  have hds := takeDigits_all s
+  generalize takeDigits s = ds at *
+  generalize hk : min ds.length (17 - n) = k at *
+  generalize hA' : ids ++ pre = A at *
+  have hfold : ∀ (man : Nat) (e : Int) (t : Bool),
+      (if !isE (hd (s.dropWhile isD)) then
+          Acc.float { neg := neg, man := man, exp10 := e, trunc := t, next := i + ds.length }
+        else doubleExp neg (s.dropWhile isD) (i + ds.length) man e t)
+      = expTail neg (s.dropWhile isD) (i + ds.length) man e t := fun _ _ _ => rfl
+  rw [hfold]
+  refine ⟨fun h => expTail_none _ _ _ _ _ _ h, fun ex h => ?_⟩
+  obtain ⟨ev', heq, hev, hev2⟩ := expTail_some neg _ (i + ds.length) (accDigits m.man (ds.take k))
+    (m.exp10 - (((i + k : Nat) : Int) - exp10S)) (m.trunc || decide (k < ds.length)) ex h
+  right; right
+  refine ⟨by simp [Token.isInteger], _, heq, ?_⟩
+  have hall : allDigits { neg := neg, intDigits := ids, fracDigits := some (pre ++ ds), exp := ex } = A ++ ds := by
+    simp [allDigits, ← hA']
+  have hfl : fracLen { neg := neg, intDigits := ids, fracDigits := some (pre ++ ds), exp := ex } = pre.length + ds.length := by
+    simp [fracLen]
+  have hkle : k ≤ ds.length := by omega
+  have hk17 : 0 < k → n < 17 := by omega
+  -- the digits in `man`
+  have htake : (A ++ ds).take (PA + k) = A.take PA ++ ds.take k := by
+    by_cases hk0 : k = 0
+    · subst hk0
+      rw [Nat.add_zero, List.take_append_of_le_length hPA]; simp
+    · have := hfull (hk17 (by omega))
+      rw [this, List.take_length_add_append, List.take_of_length_le (Nat.le_refl _)]
+  have hAlen : A.length = ids.length + pre.length := by rw [← hA']; simp
+  apply Good.intro' _ _ _ (PA + k) ev'
+  · simp [hfin, Nat.add_assoc]
+  · rfl
+  · rw [hall]
+    intro c hc
+    rcases List.mem_append.1 hc with h1 | h1
+    · exact hA c h1
+    · exact hds c h1
+  · rw [hall, List.length_append]; omega
+  · rw [hall, htake, digitsVal_eq, accDigits_append, ← digitsVal_eq, ← hm]
+  · have := accDigits_lt m.man n hmanlt (ds.take k) (fun c hc => hds c (mem_take_of hc))
+    rw [List.length_take, Nat.min_eq_left hkle] at this
+    have h2 : 10 ^ (n + k) ≤ 10 ^ 19 := pow10_le_19 (by omega)
+    show accDigits m.man (ds.take k) < 10 ^ 19
+    omega
+  · exact hbig
+  · intro htr
+    have htr' : (m.trunc || decide (k < ds.length)) = false := htr
+    rw [hmt] at htr'
+    simp only [Bool.or_eq_false_iff, decide_eq_false_iff_not] at htr'
+    rw [hall, List.length_append]; omega
+  · show m.exp10 - (((i + k : Nat) : Int) - exp10S) + ev' = _
+    rw [hall, hfl, hme, List.length_append, hi]
+    omega
+  · exact hev
+  · exact hev2
+
+
+/-! ## the integer digits -/
+
+/-- the state after `str2int` / the slow loop: the first 19 digits are in `man`, the others counted in `exp10` -/
+def intMant (ids : List Nat) : Mant :=
+  { man := digitsVal (ids.take 19), manNd := ((min ids.length 19 : Nat) : Int),
+    exp10 := ((ids.length - 19 : Nat) : Int), trunc := decide (19 < ids.length) }
+
+theorem accBody_nonzero (buf : List Nat) (neg : Bool) (s : List Nat) (i : Nat) (h48 : hd s ≠ 48)
+    (hne : takeDigits s ≠ []) :
+    accBody buf neg s i = accAfterInt buf neg (intMant (takeDigits s)) (s.dropWhile isD) (i + (takeDigits s).length) := by
+  have hall := takeDigits_all s
+  unfold accBody
+  simp only [h48, if_false, str2int_eq, slowLoop_eq]
+  generalize takeDigits s = ids at *
+  have hL : 0 < ids.length := List.length_pos_iff.2 hne
+  have hnd : ((i + ids.length : Nat) : Int) - (i : Int) = (ids.length : Int) := by omega
+  have hnz : ¬ ((ids.length : Int) = 0) := by omega
+  simp only [hnd, hnz, if_false]
+  by_cases h19 : 19 < ids.length
+  · have hgt : (ids.length : Int) > 19 := by omega
+    simp only [hgt, if_true]
+    have := slowAcc_eq ids hall 0 0 0 false (by decide) (by omega)
+    simp only [Nat.sub_zero, Nat.zero_add, Int.zero_add, Bool.false_or] at this
+    have e : ({ man := 0, manNd := 0, exp10 := 0, trunc := false } : Mant)
+        = { man := 0, manNd := ((0 : Nat) : Int), exp10 := 0, trunc := false } := rfl
+    rw [e, this]
+    rfl
+  · have hle : ¬ ((ids.length : Int) > 19) := by omega
+    simp only [hle, if_false]
+    have hw := wrapAcc_eq ids hall 0 0 (by decide) (by omega)
+    have ht : ids.take 19 = ids := List.take_of_length_le (by omega)
+    simp only [hw, intMant, ht, ← digitsVal_eq]
+    have e1 : min ids.length 19 = ids.length := by omega
+    have e2 : ids.length - 19 = 0 := by omega
+    simp [e1, e2, h19]
+
+
+theorem take_min_length {α} (l : List α) (k : Nat) : l.take (min l.length k) = l.take k := by
+  by_cases h : l.length ≤ k
+  · rw [Nat.min_eq_left h, List.take_of_length_le (Nat.le_refl _), List.take_of_length_le h]
+  · rw [Nat.min_eq_right (by omega)]
+
+/-- facts about `intMant` for a digit string with non-zero leading digit -/
+theorem intMant_facts (c0 : Nat) (r0 : List Nat) (hc0 : 49 ≤ c0) (hall : ∀ c ∈ c0 :: r0, isD c = true) :
+    let ids := c0 :: r0
+    let PA := min ids.length 19
+    (intMant ids).man = digitsVal (ids.take PA) ∧ (intMant ids).man < 10 ^ PA ∧
+    10 ^ (PA - 1) ≤ (intMant ids).man ∧ 1 ≤ PA ∧ PA ≤ ids.length := by
+  intro ids PA
+  have h1 : (intMant ids).man = digitsVal (ids.take PA) := by
+    show digitsVal (ids.take 19) = _
+    rw [take_min_length]
+  have hlen : (ids.take PA).length = PA := by rw [List.length_take]; omega
+  have hPA1 : 1 ≤ PA := by show 1 ≤ min (r0.length + 1) 19; omega
+  refine ⟨h1, ?_, ?_, hPA1, Nat.min_le_left _ _⟩
+  · rw [h1]
+    have := digitsVal_lt (ids.take PA) (fun c hc => hall c (mem_take_of hc))
+    rwa [hlen] at this
+  · rw [h1]
+    have e : PA = (PA - 1) + 1 := by omega
+    have := digitsVal_lead_take c0 r0 hc0 (PA - 1) (by show PA - 1 ≤ r0.length; show min (r0.length + 1) 19 - 1 ≤ r0.length; omega)
+    rwa [← e] at this
+
+theorem pow10_mono {a b : Nat} (h : a ≤ b) : 10 ^ a ≤ 10 ^ b := Nat.pow_le_pow_right (by omega) h
+
+theorem accAfterInt_dot_eq (buf : List Nat) (neg : Bool) (m : Mant) (s2 : List Nat) (i2 : Nat) (h : hd s2 = 46) :
+    accAfterInt buf neg m s2 i2 =
+      if takeDigits s2.tail = [] then .ret (.err errInvalidChar (i2 + 1))
+      else doubleFract neg s2.tail (i2 + 1) m (i2 + 1) := by
+  unfold accAfterInt
+  simp only [h, if_true, isDigit_hd]
+  simp
+
+/-- integer digits followed by `.` -/
+theorem afterInt_dot (buf : List Nat) (neg : Bool) (c0 : Nat) (r0 r2 : List Nat) (hc0 : 49 ≤ c0)
+    (hall : ∀ c ∈ c0 :: r0, isD c = true) (i2 : Nat) :
+    (scanFrac (46 :: r2) = none → ∃ p, accAfterInt buf neg (intMant (c0 :: r0)) (46 :: r2) i2 = .ret (.err errInvalidChar p)) ∧
+    (∀ fr, scanFrac (46 :: r2) = some fr → scanExp ((46 :: r2).drop (fracBytes fr)) = none →
+        ∃ p, accAfterInt buf neg (intMant (c0 :: r0)) (46 :: r2) i2 = .ret (.err errInvalidChar p)) ∧
+    (∀ fr ex, scanFrac (46 :: r2) = some fr → scanExp ((46 :: r2).drop (fracBytes fr)) = some ex →
+        Outcome { neg := neg, intDigits := c0 :: r0, fracDigits := fr, exp := ex } (i2 + fracBytes fr + expLen ex)
+          (accAfterInt buf neg (intMant (c0 :: r0)) (46 :: r2) i2)) := by
+  obtain ⟨hm, hlt, hlow, hPA1, hPAle⟩ := intMant_facts c0 r0 hc0 hall
+  generalize hids : c0 :: r0 = ids at *
+  generalize hPA : min ids.length 19 = PA at *
+  rw [scanFrac_dot]
+  have hbody : accAfterInt buf neg (intMant ids) (46 :: r2) i2 =
+      if takeDigits r2 = [] then .ret (.err errInvalidChar (i2 + 1))
+      else doubleFract neg r2 (i2 + 1) (intMant ids) (i2 + 1) := by
+    rw [accAfterInt_dot_eq buf neg _ (46 :: r2) i2 rfl, List.tail_cons]
+  rw [hbody]
+  by_cases h0 : takeDigits r2 = []
+  · rw [if_pos h0, if_pos h0]
+    exact ⟨fun _ => ⟨_, rfl⟩, nofun, nofun⟩
+  · rw [if_neg h0, if_neg h0]
+    have hfo := fract_outcome neg ids [] r2 (i2 + 1) (intMant ids) (i2 + 1) PA PA (i2 + 1 + (takeDigits r2).length)
+      (by show ((min ids.length 19 : Nat) : Int) = _; rw [hPA]) (by omega) hlt
+      (by simpa using hall) (by simpa using hPAle) (by simpa using hm)
+      (by intro h; simp only [List.append_nil]; omega)
+      (by show ((ids.length - 19 : Nat) : Int) = _; simp only [List.append_nil]; congr 1; omega)
+      (by show decide (19 < ids.length) = _; simp only [List.append_nil]; congr 1; apply propext; omega)
+      (by simp) rfl
+      (by
+        intro htr
+        -- at least 17 digits are in `man`, the first of them non-zero
+        have htr2 : 19 < ids.length ∨ min (takeDigits r2).length (17 - PA) < (takeDigits r2).length := by
+          have : (intMant ids).trunc = decide (19 < ids.length) := rfl
+          rw [this] at htr
+          simpa only [Bool.or_eq_true, decide_eq_true_eq] using htr
+        generalize hk : min (takeDigits r2).length (17 - PA) = k at *
+        have hkl : ((takeDigits r2).take k).length = k := by rw [List.length_take]; omega
+        rw [accDigits_eq, hkl]
+        have h1 : 10 ^ (PA - 1) * 10 ^ k ≤ (intMant ids).man * 10 ^ k := Nat.mul_le_mul_right _ hlow
+        rw [← Nat.pow_add] at h1
+        have : 10 ^ 16 ≤ 10 ^ (PA - 1 + k) := pow10_mono (by omega)
+        omega)
+    have hdrop : (46 :: r2).drop (fracBytes (some (takeDigits r2))) = r2.dropWhile isD := by
+      simp only [fracBytes, Nat.add_comm 1, List.drop_succ_cons]
+      exact drop_takeWhile_length isD r2
+    simp only [List.nil_append] at hfo
+    refine ⟨nofun, fun fr hfr => ?_, fun fr ex hfr => ?_⟩
+    · simp only [Option.some.injEq] at hfr
+      subst hfr
+      rw [hdrop]
+      exact hfo.1
+    · simp only [Option.some.injEq] at hfr
+      subst hfr
+      rw [hdrop]
+      intro hex
+      have := hfo.2 ex hex
+      have e : i2 + fracBytes (some (takeDigits r2)) + expLen ex = i2 + 1 + (takeDigits r2).length + expLen ex := by
+        simp only [fracBytes]; omega
+      rw [e]; exact this
+
+
+theorem accAfterInt_e_eq (buf : List Nat) (neg : Bool) (m : Mant) (s2 : List Nat) (i2 : Nat)
+    (hE : isE (hd s2) = true) : accAfterInt buf neg m s2 i2 = expTail neg s2 i2 m.man m.exp10 m.trunc := by
+  unfold accAfterInt expTail
+  simp [isE_ne_dot _ hE, hE]
+
+theorem scanExp_isSome (s : List Nat) (hE : isE (hd s) = true) (ex : Option (Int × Nat))
+    (h : scanExp s = some ex) : ex.isSome = true := by
+  cases s with
+  | nil => simp [hd, isE] at hE
+  | cons c r =>
+    simp only [hd, List.headD_cons] at hE
+    rw [scanExp_e c r hE] at h
+    split at h
+    · cases h
+    · simp only [Option.some.injEq] at h; subst h; rfl
+
+/-- integer digits followed by `e` / `E` -/
+theorem afterInt_e (buf : List Nat) (neg : Bool) (c0 : Nat) (r0 s2 : List Nat) (hc0 : 49 ≤ c0)
+    (hall : ∀ c ∈ c0 :: r0, isD c = true) (i2 : Nat) (hE : isE (hd s2) = true) :
+    (scanExp s2 = none → ∃ p, accAfterInt buf neg (intMant (c0 :: r0)) s2 i2 = .ret (.err errInvalidChar p)) ∧
+    (∀ ex, scanExp s2 = some ex →
+        Outcome { neg := neg, intDigits := c0 :: r0, fracDigits := none, exp := ex } (i2 + expLen ex)
+          (accAfterInt buf neg (intMant (c0 :: r0)) s2 i2)) := by
+  obtain ⟨hm, hlt, hlow, hPA1, hPAle⟩ := intMant_facts c0 r0 hc0 hall
+  generalize hids : c0 :: r0 = ids at *
+  generalize hPA : min ids.length 19 = PA at *
+  rw [accAfterInt_e_eq buf neg _ s2 i2 hE]
+  refine ⟨fun h => expTail_none _ _ _ _ _ _ h, fun ex h => ?_⟩
+  obtain ⟨ev', heq, hev, hev2⟩ := expTail_some neg s2 i2 (intMant ids).man (intMant ids).exp10 (intMant ids).trunc ex h
+  have hsome := scanExp_isSome s2 hE ex h
+  right; right
+  refine ⟨fun hh => by
+    have : ex.isNone = true := by simpa [Token.isInteger] using hh.1
+    cases ex <;> simp_all, _, heq, ?_⟩
+  have hallD : allDigits { neg := neg, intDigits := ids, fracDigits := none, exp := ex } = ids := by simp [allDigits]
+  have hfl : fracLen { neg := neg, intDigits := ids, fracDigits := none, exp := ex } = 0 := by simp [fracLen]
+  apply Good.intro' _ _ _ PA ev'
+  · rfl
+  · rfl
+  · rw [hallD]; exact hall
+  · rw [hallD]; exact hPAle
+  · rw [hallD]; exact hm
+  · have : 10 ^ PA ≤ 10 ^ 19 := pow10_le_19 (by omega)
+    show (intMant ids).man < 10 ^ 19
+    omega
+  · intro htr
+    have htr' : decide (19 < ids.length) = true := htr
+    simp only [decide_eq_true_eq] at htr'
+    have : 10 ^ 16 ≤ 10 ^ (PA - 1) := pow10_mono (by omega)
+    show 10 ^ 16 ≤ (intMant ids).man
+    omega
+  · intro htr
+    have htr' : decide (19 < ids.length) = false := htr
+    simp only [decide_eq_false_iff_not] at htr'
+    rw [hallD]; omega
+  · show ((ids.length - 19 : Nat) : Int) + ev' = _
+    rw [hallD, hfl]; omega
+  · exact hev
+  · exact hev2
+
+
+theorem accAfterInt_int_eq (buf : List Nat) (neg : Bool) (m : Mant) (s2 : List Nat) (i2 : Nat)
+    (h46 : hd s2 ≠ 46) (hE : isE (hd s2) = false) :
+    accAfterInt buf neg m s2 i2 =
+      if m.exp10 = 0 then
+        if neg then
+          if m.man > 2 ^ 63 then .ret (.ok (.real (withSign true (u64ToF64 m.man))) i2 .int)
+          else .ret (.ok (.sint (-(m.man : Int))) i2 .int)
+        else .ret (.ok (.uint m.man) i2 .int)
+      else if m.exp10 = 1 then
+        if m.man < kUint64Max / 10 ∨ (m.man = kUint64Max / 10 ∧ hd (buf.drop (i2 - 1)) - 48 ≤ 4294967295 % 10) then
+          if neg then .ret (.ok (.real (withSign true (u64ToF64 ((m.man * 10 + (hd (buf.drop (i2 - 1)) - 48)) % 2 ^ 64)))) i2 .int)
+          else .ret (.ok (.uint ((m.man * 10 + (hd (buf.drop (i2 - 1)) - 48)) % 2 ^ 64)) i2 .int)
+        else .float { neg := neg, man := m.man, exp10 := m.exp10, trunc := true, next := i2 }
+      else .float { neg := neg, man := m.man, exp10 := m.exp10, trunc := true, next := i2 } := by
+  unfold accAfterInt
+  simp only [h46, hE, if_false, Bool.false_eq_true]
+
+/-- integer digits followed by something that is neither `.` nor `e`: an integer text -/
+theorem afterInt_int (buf : List Nat) (neg : Bool) (c0 : Nat) (r0 s2 : List Nat) (hc0 : 49 ≤ c0)
+    (hall : ∀ c ∈ c0 :: r0, isD c = true) (i2 : Nat) (h46 : hd s2 ≠ 46) (hE : isE (hd s2) = false)
+    (hlast : hd (buf.drop (i2 - 1)) = hd ((c0 :: r0).drop ((c0 :: r0).length - 1))) :
+    Outcome { neg := neg, intDigits := c0 :: r0, fracDigits := none, exp := none } i2
+      (accAfterInt buf neg (intMant (c0 :: r0)) s2 i2) := by
+  obtain ⟨hm, hlt, hlow, hPA1, hPAle⟩ := intMant_facts c0 r0 hc0 hall
+  have hlead := digitsVal_lead c0 r0 hc0
+  have hr0 : r0.length + 1 = (c0 :: r0).length := rfl
+  generalize hids : c0 :: r0 = ids at *
+  generalize hPA : min ids.length 19 = PA at *
+  rw [accAfterInt_int_eq buf neg _ s2 i2 h46 hE]
+  have hmant : ({ neg := neg, intDigits := ids, fracDigits := none, exp := none } : Token).mantissa = digitsVal ids := by
+    simp [Token.mantissa]
+  have hisInt : ({ neg := neg, intDigits := ids, fracDigits := none, exp := none } : Token).isInteger = true := rfl
+  have hexp : (intMant ids).exp10 = ((ids.length - 19 : Nat) : Int) := rfl
+  have hpow19 : (10 : Nat) ^ 19 = 10000000000000000000 := by decide
+  have hpow64 : (2 : Nat) ^ 64 = 18446744073709551616 := by decide
+  have hpow63 : (2 : Nat) ^ 63 = 9223372036854775808 := by decide
+  have hposm : 1 ≤ (intMant ids).man := Nat.le_trans (Nat.pow_pos (by omega)) hlow
+  by_cases hL19 : ids.length ≤ 19
+  · -- at most 19 digits: exact integer
+    have he0 : (intMant ids).exp10 = 0 := by rw [hexp]; omega
+    have ht : ids.take PA = ids := List.take_of_length_le (by omega)
+    rw [ht] at hm
+    have hle : 10 ^ PA ≤ 10 ^ 19 := pow10_le_19 (by omega)
+    left
+    refine ⟨hisInt, by rw [hmant, ← hm]; omega, ?_⟩
+    simp only [he0, if_true, hmant, ← hm, intVal]
+    have hne : (intMant ids).man ≠ 0 := by omega
+    simp only [hne, if_false]
+    cases neg
+    · simp
+    · simp only [if_true]
+      split <;> rfl
+  · by_cases hL20 : ids.length = 20
+    · -- exactly 20 digits: the 64-bit fit test
+      have he1 : (intMant ids).exp10 = 1 := by rw [hexp]; omega
+      have he0 : ¬ ((intMant ids).exp10 = 0) := by omega
+      have hPA19 : PA = 19 := by omega
+      subst hPA19
+      have hsplit : ids = ids.take 19 ++ ids.drop 19 := (List.take_append_drop 19 ids).symm
+      have hdl : (ids.drop 19).length = 1 := by rw [List.length_drop]; omega
+      obtain ⟨d, hd1⟩ := List.length_eq_one_iff.1 hdl
+      have hdD : isD d = true := hall d (List.mem_of_mem_drop (by rw [hd1]; simp))
+      rw [isD_iff] at hdD
+      have hval : digitsVal ids = (intMant ids).man * 10 + (d - 48) := by
+        conv => lhs; rw [hsplit]
+        rw [digitsVal_append, hd1, hm]
+        simp [digitsVal]
+      have hnum : hd (buf.drop (i2 - 1)) = d := by
+        rw [hlast, hL20, show 20 - 1 = 19 from rfl, hd1]; rfl
+      have hmlt : (intMant ids).man < 10 ^ 19 := hlt
+      have hk : kUint64Max / 10 = 1844674407370955161 := by decide
+      have h5 : 4294967295 % 10 = 5 := by decide
+      simp only [he1, if_true, hnum, hk, h5]
+      have he01 : ¬ ((1 : Int) = 0) := by omega
+      simp only [he01, if_false]
+      by_cases hfit : (intMant ids).man < 1844674407370955161 ∨
+          ((intMant ids).man = 1844674407370955161 ∧ d - 48 ≤ 5)
+      · have hlt64 : digitsVal ids < 2 ^ 64 := by rw [hval]; omega
+        have hmod : ((intMant ids).man * 10 + (d - 48)) % 2 ^ 64 = digitsVal ids := by
+          rw [← hval]; exact Nat.mod_eq_of_lt hlt64
+        simp only [hfit, if_true, hmod]
+        left
+        refine ⟨hisInt, by rw [hmant]; exact hlt64, ?_⟩
+        have hbig : 10 ^ 19 ≤ digitsVal ids := by
+          have := hlead; rw [← hr0] at hL20
+          have e : r0.length = 19 := by omega
+          rwa [e] at this
+        have hne : digitsVal ids ≠ 0 := by omega
+        have hgt : digitsVal ids > 2 ^ 63 := by omega
+        simp only [hmant, intVal, hne, if_false, hgt, if_true]
+        cases neg <;> simp
+      · simp only [hfit, if_false]
+        right; right
+        refine ⟨fun hh => ?_, _, rfl, ?_⟩
+        · have := hh.2; rw [hmant, hval] at this; omega
+        · have hallD : allDigits { neg := neg, intDigits := ids, fracDigits := none, exp := none } = ids := by
+            simp [allDigits]
+          apply Good.intro' _ _ _ 19 0
+          · rfl
+          · rfl
+          · rw [hallD]; exact hall
+          · rw [hallD]; omega
+          · rw [hallD]; exact hm
+          · exact hlt
+          · intro _
+            have : 10 ^ 16 ≤ 10 ^ (19 - 1) := pow10_mono (by omega)
+            show 10 ^ 16 ≤ (intMant ids).man
+            omega
+          · intro h; cases h
+          · show (1 : Int) = _
+            rw [hallD, hL20]; simp [fracLen]
+          · intro _; rfl
+          · decide
+    · -- more than 20 digits: too large for any 64-bit integer
+      have he0 : ¬ ((intMant ids).exp10 = 0) := by rw [hexp]; omega
+      have he1 : ¬ ((intMant ids).exp10 = 1) := by rw [hexp]; omega
+      have hPA19 : PA = 19 := by omega
+      subst hPA19
+      simp only [he0, he1, if_false]
+      right; right
+      refine ⟨fun hh => ?_, _, rfl, ?_⟩
+      · have := hh.2
+        rw [hmant] at this
+        have h20 : 10 ^ 20 ≤ 10 ^ r0.length := pow10_mono (by omega)
+        have : (10 : Nat) ^ 20 = 100000000000000000000 := by decide
+        omega
+      · have hallD : allDigits { neg := neg, intDigits := ids, fracDigits := none, exp := none } = ids := by
+          simp [allDigits]
+        apply Good.intro' _ _ _ 19 0
+        · rfl
+        · rfl
+        · rw [hallD]; exact hall
+        · rw [hallD]; omega
+        · rw [hallD]; exact hm
+        · exact hlt
+        · intro _
+          have : 10 ^ 16 ≤ 10 ^ (19 - 1) := pow10_mono (by omega)
+          show 10 ^ 16 ≤ (intMant ids).man
+          omega
+        · intro h; cases h
+        · show (intMant ids).exp10 = _
+          rw [hexp, hallD]; simp [fracLen]
+        · intro _; rfl
+        · decide
+
+
+/-! ## the leading-zero branch -/
+
+theorem digitsVal_all_zero (zs : List Nat) (h : ∀ c ∈ zs, c = 48) : digitsVal zs = 0 := by
+  have := digitsVal_zeros zs h []
+  simpa [digitsVal] using this
+
+theorem zero_zs_all (zs : List Nat) (h : ∀ c ∈ zs, c = 48) : ∀ c ∈ [48] ++ zs, c = 48 := by
+  intro c hc
+  rcases List.mem_append.1 hc with h1 | h1
+  · simpa using h1
+  · exact h c h1
+
+theorem accZero_dot_eq (neg : Bool) (r : List Nat) (i1 : Nat) (h46 : hd r = 46) :
+    accZero neg r i1 =
+      if takeDigits r.tail = [] then .ret (.err errInvalidChar (i1 + 1))
+      else if isE (hd (r.tail.dropWhile (· == 48))) then
+        zeroExp neg (r.tail.dropWhile (· == 48)) (i1 + 1 + (r.tail.takeWhile (· == 48)).length)
+      else doubleFract neg (r.tail.dropWhile (· == 48)) (i1 + 1 + (r.tail.takeWhile (· == 48)).length)
+        { man := 0, manNd := 0, exp10 := 0, trunc := false } (i1 + 1) := by
+  unfold accZero
+  simp only [h46, if_true, isDigit_hd, skipZeros_eq]
+  simp
+
+theorem accZero_other_eq (neg : Bool) (r : List Nat) (i1 : Nat) (h46 : hd r ≠ 46) :
+    accZero neg r i1 = if isE (hd r) then zeroExp neg r i1 else .ret (.ok (.uint 0) i1 .int) := by
+  unfold accZero
+  simp only [h46, if_false]
+
+theorem hd_cons_of (s : List Nat) (c : Nat) (h : hd s = c) (hc : c ≠ 0) : ∃ r, s = c :: r := by
+  cases s with
+  | nil => simp [hd] at h; omega
+  | cons a r => simp only [hd, List.headD_cons] at h; exact ⟨r, by rw [h]⟩
+
+theorem accZero_spec (neg : Bool) (r : List Nat) (i1 : Nat) :
+    (scanFrac r = none → ∃ p, accZero neg r i1 = .ret (.err errInvalidChar p)) ∧
+    (∀ fr, scanFrac r = some fr → scanExp (r.drop (fracBytes fr)) = none →
+        ∃ p, accZero neg r i1 = .ret (.err errInvalidChar p)) ∧
+    (∀ fr ex, scanFrac r = some fr → scanExp (r.drop (fracBytes fr)) = some ex →
+        Outcome { neg := neg, intDigits := [48], fracDigits := fr, exp := ex } (i1 + fracBytes fr + expLen ex)
+          (accZero neg r i1)) := by
+  by_cases h46 : hd r = 46
+  · obtain ⟨r2, rfl⟩ := hd_cons_of r 46 h46 (by omega)
+    rw [accZero_dot_eq neg _ i1 h46, List.tail_cons, scanFrac_dot]
+    by_cases h0 : takeDigits r2 = []
+    · rw [if_pos h0, if_pos h0]
+      exact ⟨fun _ => ⟨_, rfl⟩, nofun, nofun⟩
+    · rw [if_neg h0, if_neg h0]
+      -- the fraction digits: zeros, then the rest
+      have hz := takeDigits_zeros r2
+      have hdz := dropWhile_zeros r2
+      have hzall := takeWhile_zeros_all r2
+      generalize hzs : r2.takeWhile (· == 48) = zs at *
+      generalize hr2' : r2.dropWhile (· == 48) = r2' at *
+      have hdrop : (46 :: r2).drop (fracBytes (some (takeDigits r2))) = r2'.dropWhile isD := by
+        simp only [fracBytes, Nat.add_comm 1, List.drop_succ_cons]
+        show List.drop (List.takeWhile isD r2).length r2 = _
+        rw [drop_takeWhile_length isD r2, hdz]
+      have hzD : ∀ c ∈ zs, isD c = true := fun c hc => by rw [hzall c hc]; decide
+      have hfin : ∀ ex, i1 + fracBytes (some (takeDigits r2)) + expLen ex
+          = i1 + 1 + zs.length + (takeDigits r2').length + expLen ex := by
+        intro ex; rw [hz]; simp only [fracBytes, List.length_append]; omega
+      have hne48 : hd r2' ≠ 48 := by
+        have := hd_dropWhile (· == 48) (by decide) r2
+        rw [hr2'] at this
+        simpa using this
+      have key :
+          (scanExp (r2'.dropWhile isD) = none → ∃ p,
+            (if isE (hd r2') then zeroExp neg r2' (i1 + 1 + zs.length)
+              else doubleFract neg r2' (i1 + 1 + zs.length) { man := 0, manNd := 0, exp10 := 0, trunc := false } (i1 + 1))
+              = .ret (.err errInvalidChar p)) ∧
+          (∀ ex, scanExp (r2'.dropWhile isD) = some ex →
+            Outcome { neg := neg, intDigits := [48], fracDigits := some (takeDigits r2), exp := ex }
+              (i1 + fracBytes (some (takeDigits r2)) + expLen ex)
+              (if isE (hd r2') then zeroExp neg r2' (i1 + 1 + zs.length)
+              else doubleFract neg r2' (i1 + 1 + zs.length) { man := 0, manNd := 0, exp10 := 0, trunc := false } (i1 + 1))) := by
+        by_cases hE : isE (hd r2') = true
+        · rw [if_pos hE]
+          have hnd : takeDigits r2' = [] := takeDigits_nil_of_hd (isE_not_digit _ hE)
+          rw [dropWhile_of_hd (isE_not_digit _ hE)]
+          have hzo := zeroExp_outcome neg [48] (some zs) r2' (i1 + 1 + zs.length) (i1 + 1 + zs.length) hE rfl
+            (digitsVal_all_zero _ (zero_zs_all zs hzall))
+          refine ⟨hzo.1, fun ex hex => ?_⟩
+          have := hzo.2 ex hex
+          rw [hfin, hnd, hz, hnd, List.append_nil]
+          simpa using this
+        · rw [if_neg hE]
+          have hfo := fract_outcome neg [48] zs r2' (i1 + 1 + zs.length) { man := 0, manNd := 0, exp10 := 0, trunc := false }
+            (i1 + 1) 0 (1 + zs.length)
+            (i1 + 1 + zs.length + (takeDigits r2').length) rfl (by omega) (by decide)
+            (by intro c hc; rw [zero_zs_all zs hzall c hc]; decide)
+            (by simp; omega)
+            (by
+              rw [List.take_of_length_le (by simp; omega)]
+              exact (digitsVal_all_zero _ (zero_zs_all zs hzall)).symm)
+            (by intro _; simp; omega)
+            (by simp only [List.length_append, List.length_cons, List.length_nil]; omega)
+            (by simp; omega) rfl rfl
+            (by
+              intro htr
+              simp only [Bool.false_or, decide_eq_true_eq, Nat.sub_zero] at htr
+              have hL : 17 < (takeDigits r2').length := by omega
+              have hk : min (takeDigits r2').length (17 - 0) = 17 := by omega
+              rw [hk]
+              -- the first digit after the skipped zeros is not zero
+              cases hr : r2' with
+              | nil => rw [hr] at hL; simp [takeDigits] at hL
+              | cons d0 rest =>
+                rw [hr] at hL hne48
+                rw [takeDigits_cons] at hL ⊢
+                by_cases hd0 : isD d0 = true
+                · simp only [hd0, if_true] at hL ⊢
+                  have h49 : 49 ≤ d0 := by
+                    have := (isD_iff d0).1 hd0
+                    simp only [hd, List.headD_cons] at hne48
+                    omega
+                  have := digitsVal_lead_take d0 (takeDigits rest) h49 16 (by simp only [List.length_cons] at hL; omega)
+                  exact this
+                · simp [hd0] at hL)
+          refine ⟨hfo.1, fun ex hex => ?_⟩
+          have := hfo.2 ex hex
+          rw [hfin, hz]
+          exact this
+      refine ⟨nofun, fun fr hfr => ?_, fun fr ex hfr => ?_⟩
+      · simp only [Option.some.injEq] at hfr
+        subst hfr
+        rw [hdrop]
+        exact key.1
+      · simp only [Option.some.injEq] at hfr
+        subst hfr
+        rw [hdrop]
+        exact key.2 ex
+  · -- no fraction
+    rw [accZero_other_eq neg r i1 h46, scanFrac_other r h46]
+    have hm0 : digitsVal ([48] ++ (none : Option (List Nat)).getD []) = 0 := by decide
+    refine ⟨nofun, fun fr hfr => ?_, fun fr ex hfr => ?_⟩
+    · simp only [Option.some.injEq] at hfr
+      subst hfr
+      simp only [fracBytes, List.drop_zero]
+      by_cases hE : isE (hd r) = true
+      · rw [if_pos hE]
+        exact (zeroExp_outcome neg [48] none r i1 i1 hE rfl hm0).1
+      · intro hex
+        rw [scanExp_other r (by simpa using hE)] at hex
+        cases hex
+    · simp only [Option.some.injEq] at hfr
+      subst hfr
+      simp only [fracBytes, List.drop_zero, Nat.add_zero]
+      by_cases hE : isE (hd r) = true
+      · rw [if_pos hE]
+        exact (zeroExp_outcome neg [48] none r i1 i1 hE rfl hm0).2 ex
+      · rw [if_neg hE]
+        intro hex
+        rw [scanExp_other r (by simpa using hE)] at hex
+        simp only [Option.some.injEq] at hex
+        subst hex
+        left
+        exact ⟨rfl, by simp [Token.mantissa, digitsVal], by simp [expLen, intVal, Token.mantissa, digitsVal]⟩
+
+
+/-! ## the whole scanning phase -/
+
+theorem hd_drop_append (ids s2 : List Nat) (k : Nat) (hk : k < ids.length) :
+    hd ((ids ++ s2).drop k) = hd (ids.drop k) := by
+  rw [List.drop_append_of_le_length (by omega)]
+  cases h : ids.drop k with
+  | nil =>
+    have := congrArg List.length h
+    rw [List.length_drop] at this
+    simp at this; omega
+  | cons a t => rfl
+
+theorem body_spec (buf : List Nat) (neg : Bool) (s : List Nat) (i : Nat)
+    (hbuf : ∀ k, hd (buf.drop (i + k)) = hd (s.drop k)) :
+    (scanInt s = none → ∃ p, accBody buf neg s i = .ret (.err errInvalidChar p)) ∧
+    (∀ ids, scanInt s = some ids → scanFrac (s.drop ids.length) = none →
+        ∃ p, accBody buf neg s i = .ret (.err errInvalidChar p)) ∧
+    (∀ ids fr, scanInt s = some ids → scanFrac (s.drop ids.length) = some fr →
+        scanExp ((s.drop ids.length).drop (fracBytes fr)) = none →
+        ∃ p, accBody buf neg s i = .ret (.err errInvalidChar p)) ∧
+    (∀ ids fr ex, scanInt s = some ids → scanFrac (s.drop ids.length) = some fr →
+        scanExp ((s.drop ids.length).drop (fracBytes fr)) = some ex →
+        Outcome { neg := neg, intDigits := ids, fracDigits := fr, exp := ex }
+          (i + ids.length + fracBytes fr + expLen ex) (accBody buf neg s i)) := by
+  by_cases h48 : hd s = 48
+  · -- leading zero
+    obtain ⟨r, rfl⟩ := hd_cons_of s 48 h48 (by omega)
+    have hbody : accBody buf neg (48 :: r) i = accZero neg r (i + 1) := by
+      unfold accBody; rw [if_pos h48, List.tail_cons]
+    have hsi : scanInt (48 :: r) = some [48] := by simp [scanInt]
+    have hz := accZero_spec neg r (i + 1)
+    rw [hbody, hsi]
+    refine ⟨nofun, fun ids hids => ?_, fun ids fr hids => ?_, fun ids fr ex hids => ?_⟩
+    · simp only [Option.some.injEq] at hids; subst hids
+      exact hz.1
+    · simp only [Option.some.injEq] at hids; subst hids
+      exact hz.2.1 fr
+    · simp only [Option.some.injEq] at hids; subst hids
+      intro h1 h2
+      have := hz.2.2 fr ex h1 h2
+      simpa [Nat.add_assoc] using this
+  · by_cases hD : isD (hd s) = true
+    · -- a non-zero digit
+      obtain ⟨c0, r, rfl⟩ : ∃ c0 r, s = c0 :: r := by
+        cases s with
+        | nil => simp [hd, isD_zero] at hD
+        | cons a t => exact ⟨a, t, rfl⟩
+      simp only [hd, List.headD_cons] at hD h48
+      have hc0 : 49 ≤ c0 := by have := (isD_iff c0).1 hD; omega
+      have htd : takeDigits (c0 :: r) = c0 :: takeDigits r := by rw [takeDigits_cons, if_pos hD]
+      have hsi : scanInt (c0 :: r) = some (c0 :: takeDigits r) := by
+        simp only [scanInt, h48, if_false]
+        rw [if_pos hD, htd]
+      have hall : ∀ c ∈ c0 :: takeDigits r, isD c = true := by rw [← htd]; exact takeDigits_all _
+      have hbody := accBody_nonzero buf neg (c0 :: r) i (by simpa [hd] using h48) (by rw [htd]; simp)
+      rw [htd] at hbody
+      have hs2 : (c0 :: r).drop (c0 :: takeDigits r).length = (c0 :: r).dropWhile isD := by
+        rw [← htd]; exact drop_takeWhile_length isD _
+      have hnd : isD (hd ((c0 :: r).dropWhile isD)) = false := hd_dropWhile isD isD_zero _
+      rw [hbody, hsi]
+      generalize hs2g : (c0 :: r).dropWhile isD = s2 at *
+      refine ⟨nofun, fun ids hids => ?_, fun ids fr hids => ?_, fun ids fr ex hids => ?_⟩
+      · simp only [Option.some.injEq] at hids; subst hids
+        rw [hs2]
+        by_cases h46 : hd s2 = 46
+        · obtain ⟨r2, rfl⟩ := hd_cons_of s2 46 h46 (by omega)
+          exact (afterInt_dot buf neg c0 (takeDigits r) r2 hc0 hall _).1
+        · rw [scanFrac_other s2 h46]; nofun
+      · simp only [Option.some.injEq] at hids; subst hids
+        rw [hs2]
+        by_cases h46 : hd s2 = 46
+        · obtain ⟨r2, rfl⟩ := hd_cons_of s2 46 h46 (by omega)
+          exact (afterInt_dot buf neg c0 (takeDigits r) r2 hc0 hall _).2.1 fr
+        · rw [scanFrac_other s2 h46]
+          intro hfr
+          simp only [Option.some.injEq] at hfr; subst hfr
+          simp only [fracBytes, List.drop_zero]
+          by_cases hE : isE (hd s2) = true
+          · exact (afterInt_e buf neg c0 (takeDigits r) s2 hc0 hall _ hE).1
+          · intro hex
+            rw [scanExp_other s2 (by simpa using hE)] at hex
+            cases hex
+      · simp only [Option.some.injEq] at hids; subst hids
+        rw [hs2]
+        by_cases h46 : hd s2 = 46
+        · obtain ⟨r2, rfl⟩ := hd_cons_of s2 46 h46 (by omega)
+          exact (afterInt_dot buf neg c0 (takeDigits r) r2 hc0 hall _).2.2 fr ex
+        · rw [scanFrac_other s2 h46]
+          intro hfr
+          simp only [Option.some.injEq] at hfr; subst hfr
+          simp only [fracBytes, List.drop_zero, Nat.add_zero]
+          by_cases hE : isE (hd s2) = true
+          · exact (afterInt_e buf neg c0 (takeDigits r) s2 hc0 hall _ hE).2 ex
+          · intro hex
+            rw [scanExp_other s2 (by simpa using hE)] at hex
+            simp only [Option.some.injEq] at hex; subst hex
+            simp only [expLen, Nat.add_zero]
+            apply afterInt_int buf neg c0 (takeDigits r) s2 hc0 hall _ h46 (by simpa using hE)
+            -- the byte before the end of the digits is the last digit
+            have hsplit : c0 :: r = (c0 :: takeDigits r) ++ s2 := by
+              rw [← htd, ← hs2g]; exact (List.takeWhile_append_dropWhile (p := isD)).symm
+            have hk : (c0 :: takeDigits r).length - 1 < (c0 :: takeDigits r).length := by simp
+            have := hbuf ((c0 :: takeDigits r).length - 1)
+            rw [hsplit, hd_drop_append _ _ _ hk] at this
+            rw [← this]
+            congr 2
+    · -- not a digit: `man_nd == 0`
+      have hDf : isD (hd s) = false := by simpa using hD
+      have hsi : scanInt s = none := by
+        cases s with
+        | nil => rfl
+        | cons c r =>
+          simp only [hd, List.headD_cons] at hDf h48
+          simp [scanInt, h48, hDf]
+      have hbody : accBody buf neg s i = .ret (.err errInvalidChar i) := by
+        unfold accBody
+        simp only [h48, if_false, str2int_eq, takeDigits_nil_of_hd hDf, List.length_nil, Nat.add_zero,
+          Int.sub_self, if_true]
+      rw [hsi, hbody]
+      exact ⟨fun _ => ⟨_, rfl⟩, nofun, nofun, nofun⟩
+
+
+theorem token_len (neg : Bool) (ids : List Nat) (fr : Option (List Nat)) (ex : Option (Int × Nat)) :
+    ({ neg := neg, intDigits := ids, fracDigits := fr, exp := ex } : Token).len
+      = (if neg then 1 else 0) + ids.length + fracBytes fr + expLen ex := rfl
+
+/-- `scanToken` in terms of its three parts -/
+theorem scanToken_eq (s : List Nat) :
+    scanToken s =
+      match scanInt (s.drop (signLen s)) with
+      | none => none
+      | some ids =>
+        match scanFrac ((s.drop (signLen s)).drop ids.length) with
+        | none => none
+        | some fr =>
+          match scanExp (((s.drop (signLen s)).drop ids.length).drop (fracBytes fr)) with
+          | none => none
+          | some ex => some { neg := signLen s == 1, intDigits := ids, fracDigits := fr, exp := ex } := rfl
+
+theorem signLen_eq (s : List Nat) : signLen s = if hd s = 45 then 1 else 0 := by
+  unfold signLen
+  split
+  · simp [hd]
+  · rename_i h
+    cases s with
+    | nil => simp [hd]
+    | cons c r =>
+      have : c ≠ 45 := fun hc => h r (by rw [hc])
+      simp [hd, this]
+
+/-- **Master lemma.**  On every buffer, the scanning phase of `parseNumber` (everything before `double_fast`)
+    rejects with `kParseErrorInvalidChar` exactly when there is no number token at `start`; for a token `t` it stops
+    at `start + t.len` and has either stored the integer / literal zero or reached `double_fast` in a `Good` state. -/
+theorem accumulate_spec (buf : List Nat) (start : Nat) :
+    (scanToken (buf.drop start) = none → ∃ p, accumulate buf start = .ret (.err errInvalidChar p)) ∧
+    (∀ t, scanToken (buf.drop start) = some t → Outcome t (start + t.len) (accumulate buf start)) := by
+  rw [accumulate_eq, scanToken_eq, signLen_eq]
+  generalize hs : buf.drop start = s
+  -- the common part, for the text after the sign
+  have main : ∀ (neg : Bool) (s1 : List Nat) (i : Nat) (sl : Nat),
+      (∀ k, hd (buf.drop (i + k)) = hd (s1.drop k)) → i = start + sl → sl = (if neg then 1 else 0) →
+      ((match scanInt s1 with
+        | none => none
+        | some ids =>
+          match scanFrac (s1.drop ids.length) with
+          | none => none
+          | some fr =>
+            match scanExp ((s1.drop ids.length).drop (fracBytes fr)) with
+            | none => none
+            | some ex => some ({ neg := neg, intDigits := ids, fracDigits := fr, exp := ex } : Token)) = none →
+          ∃ p, accBody buf neg s1 i = .ret (.err errInvalidChar p)) ∧
+      (∀ t, (match scanInt s1 with
+        | none => none
+        | some ids =>
+          match scanFrac (s1.drop ids.length) with
+          | none => none
+          | some fr =>
+            match scanExp ((s1.drop ids.length).drop (fracBytes fr)) with
+            | none => none
+            | some ex => some ({ neg := neg, intDigits := ids, fracDigits := fr, exp := ex } : Token)) = some t →
+          Outcome t (start + t.len) (accBody buf neg s1 i)) := by
+    intro neg s1 i sl hbuf hi hsl
+    have hb := body_spec buf neg s1 i hbuf
+    cases hsi : scanInt s1 with
+    | none => exact ⟨fun _ => hb.1 hsi, nofun⟩
+    | some ids =>
+      dsimp only
+      cases hsf : scanFrac (s1.drop ids.length) with
+      | none => exact ⟨fun _ => hb.2.1 ids hsi hsf, nofun⟩
+      | some fr =>
+        dsimp only
+        cases hse : scanExp ((s1.drop ids.length).drop (fracBytes fr)) with
+        | none => exact ⟨fun _ => hb.2.2.1 ids fr hsi hsf hse, nofun⟩
+        | some ex =>
+          dsimp only
+          refine ⟨nofun, fun t ht => ?_⟩
+          simp only [Option.some.injEq] at ht
+          subst ht
+          have := hb.2.2.2 ids fr ex hsi hsf hse
+          rw [token_len, ← hsl]
+          have e : start + (sl + ids.length + fracBytes fr + expLen ex) = i + ids.length + fracBytes fr + expLen ex := by
+            omega
+          rw [e]; exact this
+  by_cases h45 : hd s = 45
+  · -- negative
+    simp only [h45, if_true]
+    have hbuf : ∀ k, hd (buf.drop (start + 1 + k)) = hd (s.tail.drop k) := by
+      intro k
+      rw [← hs, List.tail_drop, List.drop_drop]
+    have := main true s.tail (start + 1) 1 hbuf rfl rfl
+    rw [List.drop_one]
+    exact this
+  · simp only [h45, if_false]
+    have hbuf : ∀ k, hd (buf.drop (start + k)) = hd (s.drop k) := by
+      intro k
+      rw [← hs, List.drop_drop]
+    have := main false s start 0 hbuf rfl rfl
+    rw [List.drop_zero]
+    exact this
 
 end Sonic.Proofs.Number
